@@ -108,9 +108,13 @@ func refKeysOK(v interface{}) string {
 				}
 			}
 		}
-		_, hasJ := m["publicKeyJwk"]
-		_, hasB := m["publicKeyBase58"]
-		if hasJ == hasB {
+		nMaterial := 0
+		for _, k := range []string{"publicKeyJwk", "publicKeyBase58", "publicKeyMultibase"} {
+			if _, has := m[k]; has {
+				nMaterial++
+			}
+		}
+		if nMaterial != 1 {
 			return "exactly one key-material member required"
 		}
 	}
@@ -253,6 +257,22 @@ func c18KeyVariants() []interface{} {
 			}
 		}
 	}
+	// every subset of the three key-material members, for every type
+	for _, t := range types[:6] {
+		for mask := 0; mask < 8; mask++ {
+			e := map[string]interface{}{"id": "k1", "type": t, "purposes": []interface{}{"authentication"}}
+			if mask&1 != 0 {
+				e["publicKeyJwk"] = jwk
+			}
+			if mask&2 != 0 {
+				e["publicKeyBase58"] = "3M5RCDjPTWPkKSN3sxUmmMqHbmRPegYP1tjcKyrDbt9J"
+			}
+			if mask&4 != 0 {
+				e["publicKeyMultibase"] = "z6MkhaXgBZDvotDkL5257faiztiGiC2QtKLGpbnnEGta2doK"
+			}
+			out = append(out, e)
+		}
+	}
 	// extra members
 	out = append(out, map[string]interface{}{"id": "k1", "type": "JsonWebKey2020", "publicKeyJwk": jwk, "foo": 1.0},
 		map[string]interface{}{"id": "k1", "type": "JsonWebKey2020", "publicKeyJwk": jwk, "controller": "x"},
@@ -344,7 +364,7 @@ func c18Docs() []doc.Doc {
 
 func c18(r *hx.Run) {
 	fx.Quiet()
-	r.Rule = "(1) validator: the full product of key-entry variants (12 ids x 9 types x 14 purpose sets x 10 key-material shapes), service variants (9 ids x 6 types x 17 endpoint shapes), list-level variants (duplicates, pairs; the same id twice for every ordered pair of accepted key / service shapes, adjacent and separated, in add and replace), replace documents built from them, every patch action disabled in turn, and JSON-patch operation lists over all six RFC 6902 operations x 22 paths x 12 from values x 6 values (thorough: all ordered pairs) are validated by the real ValidateDelta: accepted => the statement's structural predicate; (2) every accepted delta is applied by the real composer to 12 small documents: document or error, never a panic or a hang, and an accepted JSON patch leaves the key and service sections unchanged. Non-trivial: distinct accepted deltas and distinct deltas rejected by a rule."
+	r.Rule = "(1) validator: the full product of key-entry variants (12 ids x 9 types x 14 purpose sets x 10 key-material shapes; every subset of {publicKeyJwk, publicKeyBase58, publicKeyMultibase} for every type), service variants (9 ids x 6 types x 17 endpoint shapes), list-level variants (duplicates, pairs; the same id twice for every ordered pair of accepted key / service shapes, adjacent and separated, in add and replace), replace documents built from them, every patch action disabled in turn, and JSON-patch operation lists over all six RFC 6902 operations x 22 paths x 12 from values x 6 values (thorough: all ordered pairs) are validated by the real ValidateDelta: accepted => the statement's structural predicate; (2) every accepted delta is applied by the real composer to 12 small documents: document or error, never a panic or a hang, and an accepted JSON patch leaves the key and service sections unchanged. Non-trivial: distinct accepted deltas and distinct deltas rejected by a rule."
 	ver := fx.NewVersion(fx.DefaultProtocol(), nil)
 	docs := c18Docs()
 	uc := fx.Commit(fx.NewKey(fx.Ed25519, "c18/uc"), fx.SHA256)
